@@ -463,12 +463,25 @@ Lemma call_begin_nolabel_R h s :
               snd (call_begin false h) = snd (s_begin false s).
 Proof.
   intro HR. unfold call_begin, s_begin. sp. split; [|apply (r_ncall _ _ _ HR)].
-  constructor; sp; try (now destruct HR).
+  constructor; sp.
+  - apply (r_good _ _ _ HR).
+  - apply (r_nrec _ _ _ HR).
   - rewrite (r_ncall _ _ _ HR). reflexivity.
+  - apply (r_alive _ _ _ HR).
   - cbn. apply (r_ninst _ _ _ HR).
+  - apply (r_recs _ _ _ HR).
+  - apply (r_vms _ _ _ HR).
+  - apply (r_nd_alive _ _ _ HR).
+  - apply (r_pending _ _ _ HR).
+  - apply (r_xs _ _ _ HR).
+  - apply (r_d_recs _ _ _ HR).
+  - apply (r_d_vr _ _ _ HR).
+  - apply (r_d_xs _ _ _ HR).
   - intros c p H. pose proof (r_ptr_fresh _ _ _ HR c p H). lia.
   - intros t x H. pose proof (r_done_fresh _ _ _ HR t x H). lia.
   - intros t H. pose proof (r_alive_fresh _ _ _ HR t H). lia.
+  - apply (r_rec_keys _ _ _ HR).
+  - apply (r_rec_fresh _ _ _ HR).
 Qed.
 
 Lemma call_begin_R h s :
@@ -522,7 +535,7 @@ Proof.
   constructor; sp.
   - exact G4.
   - apply (r_nrec _ _ _ HR).
-  - rewrite (r_ncall _ _ _ HR). reflexivity.
+  - unfold t. rewrite (r_ncall _ _ _ HR). reflexivity.
   - rewrite map_app. cbn. rewrite (r_alive _ _ _ HR). unfold t. now rewrite (r_ncall _ _ _ HR).
   - rewrite app_length. cbn. rewrite (r_ninst _ _ _ HR). lia.
   - eapply recs_transfer; [apply (r_recs _ _ _ HR)|].
@@ -555,4 +568,129 @@ Proof.
     + lia.
   - apply (r_rec_keys _ _ _ HR).
   - apply (r_rec_fresh _ _ _ HR).
+Qed.
+
+(* ---- a record is added ---------------------------------------------------------------------- *)
+Lemma R_add_rec h s xs c' a o o' tm' :
+  R h s xs -> good c' ->
+  (forall t rc, In (t, rc) (vms h) -> get (cells c') rc = get (cells (hc h)) rc) ->
+  (forall r a k, In (r, mkRec a (Some k)) (recs h) -> get (cells c') k = get (cells (hc h)) k) ->
+  (forall k p, holds c' k p -> p < ncall h) ->
+  match o, o' with
+  | None, None => True
+  | Some k, Some rf => ~ live (hc h) k /\ cell_ok c' s k rf
+  | _, _ => False
+  end ->
+  R (mkHeap c' (vms h) (recs h ++ [(nrec h, mkRec a o)]) (nrec h + 1) (ncall h) (ninst h) tm')
+    (mkStore (alive s) (done s) (srecs s ++ [(snrec s, mkSRec a o')]) (snrec s + 1) (sncall s)) [].
+Proof.
+  intros HR G Hv Hr Hp Ho.
+  destruct (tracked_live _ _ _ HR) as (Lv & Lr & _).
+  constructor; sp.
+  - exact G.
+  - now rewrite (r_nrec _ _ _ HR).
+  - apply (r_ncall _ _ _ HR).
+  - apply (r_alive _ _ _ HR).
+  - apply (r_ninst _ _ _ HR).
+  - apply Forall2_app.
+    + eapply recs_transfer; [apply (r_recs _ _ _ HR)|].
+      intros r a0 k rf Hk. apply cell_ok_frame; [reflexivity|]. eapply Hr; eauto.
+    + constructor; [|constructor]. split; [apply (r_nrec _ _ _ HR)|]. split; [reflexivity|].
+      cbn. destruct o, o'; tauto.
+  - intros t rc H. rewrite (Hv _ _ H). now apply (r_vms _ _ _ HR).
+  - apply (r_nd_alive _ _ _ HR).
+  - apply (r_pending _ _ _ HR).
+  - intros c rf [].
+  - intros r a1 r' a2 c H1 H2. apply in_app_or in H1. apply in_app_or in H2.
+    destruct H1 as [H1|[E1|[]]], H2 as [H2|[E2|[]]].
+    + eapply (r_d_recs _ _ _ HR); eauto.
+    + injection E2 as <- <- ->. destruct o'; [|destruct Ho]. destruct Ho as [Hl _].
+      exfalso. apply Hl. eapply Lr; eauto.
+    + injection E1 as <- <- ->. destruct o'; [|destruct Ho]. destruct Ho as [Hl _].
+      exfalso. apply Hl. eapply Lr; eauto.
+    + congruence.
+  - intros t r a1 c H1 H2. apply in_app_or in H2. destruct H2 as [H2|[E2|[]]].
+    + eapply (r_d_vr _ _ _ HR); eauto.
+    + injection E2 as <- <- ->. destruct o'; [|destruct Ho]. destruct Ho as [Hl _].
+      apply Hl. eapply Lv; eauto.
+  - intros c rf [].
+  - exact Hp.
+  - apply (r_done_fresh _ _ _ HR).
+  - apply (r_alive_fresh _ _ _ HR).
+  - rewrite map_app. cbn. apply nodup_snoc; [apply (r_rec_keys _ _ _ HR)|].
+    intro H. apply (r_rec_fresh _ _ _ HR) in H. lia.
+  - intros rid H. rewrite map_app in H. apply in_app_or in H. destruct H as [H|[E|[]]].
+    + apply (r_rec_fresh _ _ _ HR) in H. lia.
+    + cbn in E. lia.
+Qed.
+
+Lemma call_finish_nolabel_R t args h s :
+  R h s [] -> R (call_finish false t args h) (s_finish false t args s) [].
+Proof.
+  intro HR. unfold call_finish, s_finish.
+  apply (R_add_rec h s [] (hc h) args None None (tmp h) HR); auto.
+  - apply (r_good _ _ _ HR).
+  - apply (r_ptr_fresh _ _ _ HR).
+Qed.
+
+Lemma call_finish_R t args h s :
+  R h s [(tmp h, SCall t)] -> R (call_finish true t args h) (s_finish true t args s) [].
+Proof.
+  intro HR. unfold call_finish, s_finish.
+  pose proof (r_good _ _ _ HR) as G0.
+  assert (Htmp : cell_ok (hc h) s (tmp h) (SCall t)) by (apply (r_xs _ _ _ HR); now left).
+  destruct (r_d_xs _ _ _ HR (tmp h) (SCall t)) as [Dv Dr]; [now left|].
+  unfold cell_ok in Htmp. rewrite Htmp.
+  assert (Hl : live (hc h) (tmp h)) by (unfold live; congruence).
+  assert (NoSlot : sref_val s (SCall t) = VD DNil ->
+            R (mkHeap (destroy (hc h) (tmp h)) (vms h) (recs h ++ [(nrec h, mkRec args None)]) (nrec h + 1)
+                      (ncall h) (ninst h) (tmp h))
+              (mkStore (alive s) (done s) (srecs s ++ [(snrec s, mkSRec args None)]) (snrec s + 1) (sncall s)) []).
+  { intros _. destruct (destroy_ok (hc h) (tmp h) G0 Hl) as (G1 & C1 & N1).
+    apply (R_add_rec h s _ _ args None None (tmp h) HR); auto.
+    - intros t' rc H. rewrite C1, gso; [reflexivity|]. intro E. subst. eapply Dv; eauto.
+    - intros r a k H. rewrite C1, gso; [reflexivity|]. intro E. subst. eapply Dr; eauto.
+    - intros k p H. unfold holds in H. rewrite C1, get_set in H. destruct (k =? tmp h); [discriminate|].
+      now apply (r_ptr_fresh _ _ _ HR k). }
+  assert (Slot : forall v, sref_val s (SCall t) = v ->
+            R (let '(c1, sc) := move_construct (hc h) (tmp h) in
+               mkHeap (destroy c1 (tmp h)) (vms h) (recs h ++ [(nrec h, mkRec args (Some sc))]) (nrec h + 1)
+                      (ncall h) (ninst h) (tmp h))
+              (mkStore (alive s) (done s) (srecs s ++ [(snrec s, mkSRec args (Some (SCall t)))]) (snrec s + 1) (sncall s)) []).
+  { intros v Ev.
+    destruct (move_construct_ok (hc h) (tmp h) (sref_val s (SCall t)) G0 Htmp) as (G1 & S1 & N1 & C1).
+    destruct (move_construct (hc h) (tmp h)) as [c1 sc] eqn:Em. cbn [fst snd] in *. subst sc.
+    assert (Hne : tmp h <> ncell (hc h)) by (eapply fresh_ne; eauto).
+    destruct (destroy_ok c1 (tmp h) G1) as (G2 & C2 & N2).
+    { unfold live. rewrite C1, N.eqb_refl. discriminate. }
+    assert (Hc : forall k, get (cells (destroy c1 (tmp h))) k =
+               if k =? tmp h then None else if k =? ncell (hc h) then Some (sref_val s (SCall t))
+               else get (cells (hc h)) k).
+    { intro k. rewrite C2, get_set, C1. destruct (k =? tmp h); reflexivity. }
+    assert (Hfr : forall k, live (hc h) k -> k <> ncell (hc h)).
+    { intros k Hk E. subst. apply Hk. destruct G0 as [_ [_ _ Hf]]. apply Hf. lia. }
+    destruct (tracked_live _ _ _ HR) as (Lv & Lr & _).
+    apply (R_add_rec h s _ _ args (Some (ncell (hc h))) (Some (SCall t)) (tmp h) HR); auto.
+    - intros t' rc H. rewrite Hc.
+      destruct (N.eqb_spec rc (tmp h)) as [->|_]; [exfalso; eapply Dv; eauto|].
+      destruct (N.eqb_spec rc (ncell (hc h))) as [E|_]; [|reflexivity].
+      exfalso. eapply Hfr; eauto.
+    - intros r a k H. rewrite Hc.
+      destruct (N.eqb_spec k (tmp h)) as [->|_]; [exfalso; eapply Dr; eauto|].
+      destruct (N.eqb_spec k (ncell (hc h))) as [E|_]; [|reflexivity].
+      exfalso. eapply Hfr; eauto.
+    - intros k p H. unfold holds in H. rewrite Hc in H. destruct (k =? tmp h); [discriminate|].
+      destruct (k =? ncell (hc h)).
+      + apply (r_ptr_fresh _ _ _ HR (tmp h)). unfold holds. congruence.
+      + now apply (r_ptr_fresh _ _ _ HR k).
+    - split.
+      + intro Hk. apply (Hfr _ Hk). reflexivity.
+      + unfold cell_ok. rewrite Hc. destruct (N.eqb_spec (ncell (hc h)) (tmp h)); [congruence|].
+        now rewrite N.eqb_refl. }
+  unfold sref_val in *. sp.
+  destruct (lookup t (done s)) as [[[|k i]|]|] eqn:El.
+  - apply NoSlot. reflexivity.
+  - exact (Slot _ eq_refl).
+  - apply NoSlot. reflexivity.
+  - exact (Slot _ eq_refl).
 Qed.
